@@ -368,7 +368,12 @@ def run(ctx):
     scs += L.toy_curve_scenarios(rng)
     for eng in ["small:23:5", "group1", "group14-256", "group16", "gex", "gex256", "nistp256", "c25519"]:
         for _ in range(3 if ctx.thorough else 1):
-            c, s = L.honest(rng, eng, old=(eng == "gex" and rng.random() < 0.5))
+            try:
+                c, s = L.honest(rng, eng, old=(eng == "gex" and rng.random() < 0.5))
+            except L.HonestFailed as hf:  # C06's subject; here only: the tie cannot be exercised on honest traffic
+                ctx.disagree("honest-exchange-did-not-complete", {"engine": eng, "stage": hf.stage},
+                             "completes", "client: %s / server: %s" % (hf.ctext[-160:], hf.stext[-160:]))
+                continue
             c["label"], s["label"] = "honest:" + L.family(c) + ":c", "honest:" + L.family(s) + ":s"
             scs += [c, s]
     scs += L.malformed_scenarios(rng, 1500 if ctx.thorough else 300)
@@ -388,7 +393,7 @@ def run(ctx):
         if i % 97 == 0:
             ctx.sample({"label": sc.get("label"), "request": lines[i][:400], "impl": text[:400]})
         if model is not None and model[i] != text:
-            m_eff = L.parse_trace(model[i])[0] if model[i].count(" | ") == 2 else []
+            m_eff = L.parse_trace(model[i])[0] if model[i].count(" | ") >= 2 else []
             i_eff, i_status, _ = L.parse_trace(text)
             if (sc.get("peer_value") is not None and sc["peer_value"] == sc["modulus_p"] - 1 and i_status == "ssh"
                     and len(i_eff) < len(m_eff) and i_eff == m_eff[:len(i_eff)]
